@@ -66,7 +66,12 @@ func opAddMany(name string, vs []uint32) op32 {
 	})
 }
 func opClear() op32 {
-	return mk("Clear()", func(w *W32) (string, *ev.Fail) { w.B.Clear(); w.M = w.M.Clone(); w.M.RemoveRange(0, 1<<32); return "", nil })
+	return mk("Clear()", func(w *W32) (string, *ev.Fail) {
+		w.B.Clear()
+		w.M = w.M.Clone()
+		w.M.RemoveRange(0, 1<<32)
+		return "", nil
+	})
 }
 func opRunOptimize() op32 {
 	return mk("RunOptimize()", func(w *W32) (string, *ev.Fail) { w.B.RunOptimize(); return "", nil })
